@@ -192,6 +192,18 @@ def ptsHeader (_n : Nat) : List PLine := [.other, .other, .open_]
 def hstackMinus1 (a b : List (Option Rat)) : List (List (Option Rat)) :=
   List.zipWith (fun x y => [x.map (· - 1), y.map (· - 1)]) a b
 
+/-- `column - 1` on a column of parsed numbers -/
+def colMinus1 (a : List (Option Rat)) : List (Option Rat) := a.map fun x => x.map (· - 1)
+
+/-- `np.hstack([a, b])` of two columns: one row per point -/
+def hstackCols (cols : List (List (Option Rat))) : List (List (Option Rat)) :=
+  match cols with
+  | [a, b] => List.zipWith (fun x y => [x, y]) a b
+  | _ => []
+
+theorem hstackCols_minus1 (a b : List (Option Rat)) : hstackCols [colMinus1 a, colMinus1 b] = hstackMinus1 a b := by
+  simp [hstackCols, colMinus1, hstackMinus1, List.zipWith_map]
+
 /-- SPECIFICATION of `pts_exporter`: header, one line per point with the second axis first, both 1-based and printed
 with three decimals, footer — `IndexError` for a shape with fewer than two axes -/
 def ptsExporterSpec (pts : List (List (Option Rat))) : Except Exc (List PLine) :=
